@@ -1,4 +1,5 @@
 import GixModel.Lemmas.C26
+import GixModel.Lemmas.C26Append
 /-
 C26 — Config files round-trip losslessly.  PROPERTY THEOREMS ONLY.
 
@@ -15,8 +16,11 @@ replayed against the real code by the harness and recorded in known-findings.txt
 Part 2 (files). `file_write_only_adds_newlines` holds for ALL files (parsed or edited):
 `File::write_to` writes every event verbatim and in order and inserts nothing but newline
 sequences. `file_reparse_partial`: when nothing is inserted the written text parses back to the
-same file. The general re-parse statement is `file_reparse_full` (not proved: it needs the
-print-then-parse direction of the grammar; it is what the harness oracle evaluates).
+same file. `file_reparse_uniform_newlines` / `reparse_with_final_newline` (round 3): when the
+writer adds exactly the missing final newline (LF or CRLF) to a file whose events end in a value,
+the written text parses back to the same headers and entries — every sub-parser is stable under an
+appended newline (`Lemmas/C26Append.lean`). The general re-parse statement is `file_reparse_full`
+(not proved beyond that class; it is what the harness oracle evaluates).
 -/
 namespace GixModel.Props.C26
 open GixModel GixModel.C26
@@ -105,6 +109,46 @@ example : ∃ f, fileFromBytes [91, 97, 93, 10, 9, 107, 32, 61, 32, 118, 10, 35,
     ∧ render f.events = [91, 97, 93, 10, 9, 107, 32, 61, 32, 118, 10, 35, 99, 10, 91, 98, 32, 34, 99, 34, 93, 10, 107, 10]
     ∧ f.normal = true ∧ f.sections.length = 2 := by
   refine ⟨_, rfl, by decide +kernel, by decide +kernel, by decide +kernel⟩
+
+/-- Print-then-parse, proved part (round 3). A loaded file whose events are lossless (`hl`), whose
+text has no byte that can start a byte-order mark at its head and does not end in a lone CR, and whose
+events END IN A VALUE (so: no comment, whitespace or newline run at the very end of the file — the
+excluded classes: a comment at EOF swallows the CR of an inserted CRLF, a trailing newline run of
+another style merges with the inserted newline), and for which `File::write_to` inserts nothing or
+exactly the missing FINAL newline (`\n` or `\r\n`, whichever the file uses: `detectNewline`): the
+written text parses, and parses back to the same section headers and the same key/value entries.
+Files for which the writer also inserts newlines in the middle (a key on the header line,
+`[a][b]`, several value-less keys on one line) are not covered; see `file_reparse_full`. -/
+theorem file_reparse_uniform_newlines (bs : Bytes) (f : File) (h : fileFromBytes bs = some f)
+    (hl : render f.events = bs) (hbom : noBomHead bs = true) (hcr : bs.getLast? ≠ some 13)
+    (hv : ∃ e, f.events.getLast? = some e ∧ isValueEnd e = true)
+    (hfin : f.normal = true ∨ f.aug = f.events ++ [.newline (detectNewline f)]) :
+    ∃ g, fileFromBytes f.write = some g ∧ g.entries = f.entries ∧ g.headers = f.headers := by
+  rcases hfin with hn | ha
+  · exact ⟨f, file_reparse_partial bs f h hl hn, rfl, rfl⟩
+  · have hw : f.write = bs ++ detectNewline f := by
+      rw [File.write_eq, ha, render_snoc_nl, hl]
+    rw [hw]
+    exact fileFromBytes_app (detectNewline_NL f) h hbom hcr hv
+
+/-- The appended-newline theorem on its own: for EVERY text the parser accepts (no BOM head, not
+ending in CR, events ending in a value) the text with `\n` or `\r\n` appended is accepted too, and
+reads as the same headers and entries. -/
+theorem reparse_with_final_newline (bs t : Bytes) (f : File) (ht : t = [10] ∨ t = [13, 10])
+    (h : fileFromBytes bs = some f) (hbom : noBomHead bs = true) (hcr : bs.getLast? ≠ some 13)
+    (hv : ∃ e, f.events.getLast? = some e ∧ isValueEnd e = true) :
+    ∃ g, fileFromBytes (bs ++ t) = some g ∧ g.entries = f.entries ∧ g.headers = f.headers :=
+  fileFromBytes_app ht h hbom hcr hv
+
+-- non-vacuity: `[a]\n\tk = v` (no final newline) — the writer appends `\n`, and the theorem applies
+example : ∃ f, fileFromBytes [91, 97, 93, 10, 9, 107, 32, 61, 32, 118] = some f
+    ∧ render f.events = [91, 97, 93, 10, 9, 107, 32, 61, 32, 118]
+    ∧ noBomHead [91, 97, 93, 10, 9, 107, 32, 61, 32, 118] = true
+    ∧ (∃ e, f.events.getLast? = some e ∧ isValueEnd e = true)
+    ∧ f.normal = false
+    ∧ f.aug = f.events ++ [.newline (detectNewline f)]
+    ∧ f.write = [91, 97, 93, 10, 9, 107, 32, 61, 32, 118, 10] := by
+  refine ⟨_, rfl, by decide +kernel, by decide +kernel, ⟨_, rfl, rfl⟩, by decide +kernel, by decide +kernel, by decide +kernel⟩
 
 /-- grouping events into front matter and sections loses nothing -/
 theorem file_events_of_parse (evs : List Event) : (fileOfEvents evs).events = evs :=
